@@ -287,6 +287,12 @@ async fn run(plan: RPlan) -> Obs {
             return obs;
         }
     };
+    // the configuration and the hello are inputs of this run: their digest is part of its state
+    world::note(
+        900,
+        crate::prng::fnv64(format!("{:?}{}{}{}", plan.rules, plan.peer, plan.via_file, plan.file_fault).as_bytes()),
+        crate::prng::fnv64(&plan.hello.random),
+    );
     let listening = patht::start(&ep, listen).await;
     let peer_addr = SocketAddr::new(plan.peer.parse().unwrap(), 40_123);
     let conn = match patht::connect_raw(listen, peer_addr, EpFaults::default()) {
